@@ -50,10 +50,20 @@ f32 nondet_f32(void); f64 nondet_f64(void); void *nondet_ptr(void);
 #endif
 
 /* bit reinterpretation */
+#ifdef LL2C_NATIVE
 static inline u32 F2U32(f32 f) { union { f32 f; u32 u; } x; x.f = f; return x.u; }
 static inline u64 F2U64(f64 f) { union { f64 f; u64 u; } x; x.f = f; return x.u; }
 static inline f32 U2F32(u32 u) { union { f32 f; u32 u; } x; x.u = u; return x.f; }
 static inline f64 U2F64(u64 u) { union { f64 f; u64 u; } x; x.u = u; return x.f; }
+#else
+/* call-free (usable in loop invariants; no instrumented-callee / uninstrumented-caller mismatch under dfcc) */
+union ll_pun32 { f32 f; u32 u; };
+union ll_pun64 { f64 f; u64 u; };
+#define F2U32(x) (((union ll_pun32){ .f = (x) }).u)
+#define F2U64(x) (((union ll_pun64){ .f = (x) }).u)
+#define U2F32(x) (((union ll_pun32){ .u = (x) }).f)
+#define U2F64(x) (((union ll_pun64){ .u = (x) }).f)
+#endif
 
 /* shifts: amount >= width is poison (C++ UB).  Default model: what compiled x86 code can produce -- either the scalar
  * instruction's count masking or the SIMD result (0 / sign fill) if the loop was vectorised; both are explored.
